@@ -46,6 +46,12 @@ ReducerOK(h, r) ==
       [] h = "diag" -> r \in {"sum", "norm", "norm2", "wsum"}
       [] OTHER -> (r = "bilinear" => h = "id")
 
+\* an additive constant (t + 1.5) brings unit magnitude back into a program over leaves of magnitude 1e-8: the roundoff of the
+\* O(1) intermediates then dominates the tiny gradient, so such programs are not "tiny scale" inputs
+RECURSIVE HasAdds(_)
+HasAdds(t) == IF t.op \in {"x", "y"} THEN FALSE
+              ELSE IF t.op \in {"add", "sub", "mul"} THEN HasAdds(t.a) \/ HasAdds(t.b)
+              ELSE t.op = "adds" \/ HasAdds(t.a)
 RECURSIVE Uses(_, _)
 Uses(t, n) == IF t.op \in {"x", "y"} THEN t.op = n
               ELSE IF t.op \in {"add", "sub", "mul"} THEN Uses(t.a, n) \/ Uses(t.b, n)
@@ -53,6 +59,7 @@ Uses(t, n) == IF t.op \in {"x", "y"} THEN t.op = n
 
 Init == /\ s \in SHAPES /\ body \in Bodies(DEPTH) /\ head \in Heads /\ red \in Reds /\ track \in TRACK
         /\ ReducerOK(head, red)
+        /\ (s.scale = "tiny" => ~HasAdds(body))
         \* t - t is identically zero: norm is not differentiable there (and in floating point its value is sqrt of noise)
         \* (the harness applies the same exclusion to bodies that are zero for a deeper reason, e.g. A (x - x): it skips norm
         \*  programs whose dense value is exactly 0)
